@@ -11,18 +11,32 @@ from ._test_suite import TestSuite, TestResult, TestStatus
 
 
 def as_junit_xml_element(suite: TestSuite, timestamp: str) -> Element:
+    tests = list(suite)
+    if not suite and all(t.status for t in tests):
+        # the suite failed as a whole (e.g. unreadable file, unequal domains, differing sequence lengths):
+        # add a test case carrying that verdict, otherwise the report would not contain any failure
+        tests.append(
+            TestResult(
+                name="file comparison",
+                status=suite.status,
+                shortlog=suite.shortlog,
+                stdout=suite.stdout if suite.stdout else suite.shortlog,
+                cpu_time=None,
+            )
+        )
+
     xml_tree = Element("testsuite")
     xml_tree.set("name", _as_string_or("n/a", suite.name))
-    xml_tree.set("tests", str(sum(1 for _ in suite)))
+    xml_tree.set("tests", str(len(tests)))
     xml_tree.set("disabled", "0")
-    xml_tree.set("errors", str(sum(1 for t in suite if t.status == TestStatus.error)))
-    xml_tree.set("failures", str(sum(1 for t in suite if t.status == TestStatus.failed)))
-    xml_tree.set("skipped", str(sum(1 for t in suite if t.status == TestStatus.skipped)))
+    xml_tree.set("errors", str(sum(1 for t in tests if t.status == TestStatus.error)))
+    xml_tree.set("failures", str(sum(1 for t in tests if t.status == TestStatus.failed)))
+    xml_tree.set("skipped", str(sum(1 for t in tests if t.status == TestStatus.skipped)))
     xml_tree.set("timestamp", timestamp)
     xml_tree.set("time", _as_string_or("n/a", suite.cpu_time))
 
     SubElement(xml_tree, "properties")  # e.g. environment settings... currently, we have nothing
-    for test in suite:
+    for test in tests:
         _add_test_case(xml_tree, test, _as_string_or("n/a", suite.name))
 
     return xml_tree
